@@ -96,7 +96,12 @@ func (s *Schema) Example() (b []byte, err error) {
 		return nil, errors.NewDocumentError(s.file, errors.ErrEmptySchema)
 	}
 
-	return newExampleBuilder(s.inner.TypesList()).Build(s.inner.RootNode())
+	b, err = newExampleBuilder(s.inner.TypesList()).Build(s.inner.RootNode())
+	if err != nil {
+		return nil, err
+	}
+	// The builder works in pooled buffers: hand out a copy the next call can't overwrite.
+	return append([]byte(nil), b...), nil
 }
 
 func (s *Schema) AddType(name string, sc jschema.Schema) (err error) {
